@@ -27,8 +27,12 @@ CHECK_DEADLOCK FALSE
 VERSION_SPECS = {1: [[8, 4]], 2: [[7, 2], [4, 1]]}
 # options templates with the same counts and the same option field: only the scope field differs (element, length)
 SCOPE_SPECS = {3: [[10, 2]], 4: [[7, 2]], 5: [[7, 1]]}
+# version 6: a definition that uses an element missing from the information model - data under it cannot be decoded and is
+# reported, never decoded with an earlier definition (like version 0, the template taken back: no records)
+NO_RECORDS = (0, 6)
 for _v in SCOPE_SPECS:
     VERSION_SPECS[_v] = [[4, 1]]
+VERSION_SPECS[6] = [[8, 4], [9999, 4]]
 BODY = [10, 0, 0, 1, 0, 80, 6, 9, 192, 168, 1, 2]
 
 
@@ -219,7 +223,7 @@ def judge_merged(ctx, proto, hist, addr, job, groups, r):
         for n in idx:
             op = hist[n]
             if op["op"] == "data":
-                if op["v"] == 0:
+                if op["v"] in NO_RECORDS:
                     unknown = True
                 else:
                     want += expected_recs(op["v"])
@@ -257,7 +261,7 @@ def judge(ctx, proto, hist, addr, job, r):
                 ctx.violation(where + ": template announcement not accepted: %s %s" % (x["st"], x.get("err")), {"history": hist[:n + 1], "addresses": addr})
                 return
         elif op["op"] == "data":
-            if op["v"] == 0:
+            if op["v"] in NO_RECORDS:
                 if x["st"] != "nonfatal" or x["recs"]:
                     ctx.violation(where + ": the exporter has not announced this template, the specification says 'unknown, no records'; "
                                   "decoded %s with %d records" % (x["st"], len(x["recs"])),
@@ -316,9 +320,9 @@ def check(ctx):
     # ... and the same pair with templates taken back in between
     r6 = ctx.tlc_model("TemplateCacheMC", "run6.cfg", want_cases=True,
                        files={"run6.cfg": (CFG % dict(exps='"ea", "eb"', peers="FALSE", dev="FALSE", ops=5 if thorough else 4, emit="TRUE"))
-                              .replace("Ids = {256, 257}", "Ids = {257}").replace("Versions = {1, 2}", "Versions = {0, 1, 2}")})
+                              .replace("Ids = {256, 257}", "Ids = {257}").replace("Versions = {1, 2}", "Versions = {0, 1, 6}")})
     hists_pair += [c["hist"] for c in r6.cases if len(c["hist"]) >= 3 and c["hist"][-1]["op"] == "data"
-                   and any(o["op"] == "announce" and o["v"] == 0 for o in c["hist"])]
+                   and any(o["op"] == "announce" and o["v"] in NO_RECORDS for o in c["hist"])]
     hists = [c["hist"] for c in r1.cases if c["hist"]]
     hists_peer = [c["hist"] for c in r2.cases if c["hist"] and any(o["op"].startswith("peer") for o in c["hist"])]
     ctx.note("TLC emitted %d + %d histories" % (len(hists), len(hists_peer)))
